@@ -142,8 +142,20 @@ func c14NoAmbient(r *an.Run) {
 						for _, li := range lb.Instrs {
 							switch y := li.(type) {
 							case *ssa.Store:
+								// a temporary of the iteration itself (the range value spilled to read a field of it):
+								// allocated in the loop and used nowhere else
+								if al, isAl := an.Root(y.Addr).(*ssa.Alloc); isAl && !al.Heap && l.Blocks[al.Block()] && al.Referrers() != nil {
+									inside := true
+									for _, u := range *al.Referrers() {
+										if !l.Blocks[u.Block()] {
+											inside = false
+										}
+									}
+									if inside {
+										continue
+									}
+								}
 								onlyMaps = false
-								_ = y
 							case ssa.CallInstruction:
 								if !an.IsCallTo(y, "builtin:append", "builtin:len", "builtin:delete") {
 									onlyMaps = false
